@@ -20,7 +20,9 @@ ASSUMPTIONS = ["the oracle compares observations of the long-lived calculator wi
 LINES = ["x = 5", "y = x * 2", "x + y", "x = x + 1", "total = 10 usd", "total * 2", "total to try", "d = 3 hours 20 minutes",
          "d + 10 minutes", "d as minutes", "p = 10%", "200 + p", "rate = 2,5", "rate * 4", "1 + 2 * 3", "abc", "", "   ",
          "# note", "x = ", "10 / 0", "u = 5 km", "u to m", "when = 12 march 2020", "when + 3 days", "z = x + y",
-         "z", "my value = 7", "my value * 3", "My Value + 1", "20% of 150", "0x1F + 1", "12:30 + 1 hour", "(1 + 2", "5 $ +"]
+         "z", "10 usd to xyz", "10 usd to try", "25 eur to nowhere", "25 eur to usd", "5 km to foo", "5 km to m", "3 hours as foo",
+         "3 hours as minutes", "12 march 2020 at 25", "12 march 2020 at 10", "100 to foo", "100 to hex", "6 is what % of 0", "6 is what % of 12",
+         "99999999999999999 days", "2 days", "31/02/2021", "28/02/2021", "10:30 EST to XYZ", "10:30 EST to CET", "my value = 7", "my value * 3", "My Value + 1", "20% of 150", "0x1F + 1", "12:30 + 1 hour", "(1 + 2", "5 $ +"]
 
 
 def gen_text(rng):
